@@ -2,7 +2,7 @@
 (* Generation of behaviours of ThreadPool for the gated schedule replay (binding D).
    Every action of ThreadPool is taken together with a label [a, w, x] naming the hook point the
    real code must reach and the arguments it must report there:
-       a = action / point name,  w = worker id (or -1),
+       a = action / point name,  g = generation of the acting thread,  w = worker id (or -1),
        x = Pool_Start: n | Pool_Execute: task | Worker_Lock: 0 ok, 1 poisoned
            | Worker_Recv: 0 Function, 1 Shutdown, 2 disconnected | Worker_Run/Finish/Panic: task
            | Rec_Join: 1 if the handle was still in `threads`, 0 if Drop had taken it.
@@ -18,37 +18,40 @@ CONSTANT KeepHist
 VARIABLE hist
 
 AsSeq(f) == [i \in 1 .. N |-> f[i - 1]]
-Proj == [cpc |-> cpc, nsub |-> nsub, att |-> recAttached, q |-> q, tx |-> txAlive, lk |-> rxLock,
-         wpc |-> AsSeq(wpc), wt |-> AsSeq(wtask), inc |-> AsSeq(inc), rq |-> recq, rpc |-> rpc,
-         rw |-> rw, h |-> AsSeq(handles), pan |-> [t \in Tasks |-> t \in pan],
+PerGen(f) == [g \in Gens |-> AsSeq(f[g])]
+Proj == [cpc |-> cpc, nsub |-> nsub, cur |-> cur, att |-> recAttached, q |-> q, tx |-> txAlive, lk |-> rxLock,
+         wpc |-> PerGen(wpc), wt |-> PerGen(wtask), inc |-> PerGen(inc), rq |-> recq, rpc |-> rpc,
+         rw |-> rw, h |-> PerGen(handles), pan |-> [t \in Tasks |-> t \in pan],
          ran |-> ran, done |-> done]
 \* what the harness compares after each step
-Obs == [cpc |-> cpc, wpc |-> AsSeq(wpc), ran |-> ran, done |-> done]
+Obs == [cpc |-> cpc, wpc |-> PerGen(wpc), ran |-> ran, done |-> done]
 
-L(name, w, x) == hist' = IF KeepHist THEN Append(hist, [a |-> name, w |-> w, x |-> x, s |-> Obs'])
-                         ELSE <<[a |-> name, w |-> w, x |-> x]>>
+\* label: g = generation of the acting thread (caller: the generation current AFTER the step)
+L(name, g, w, x) == hist' = IF KeepHist THEN Append(hist, [a |-> name, g |-> g, w |-> w, x |-> x, s |-> Obs'])
+                            ELSE <<[a |-> name, g |-> g, w |-> w, x |-> x]>>
 
 GInit == Init /\ hist = <<>>
 GNext ==
-  \/ Pool_Start(N) /\ L("Pool_Start", NOBODY, N)
-  \/ \E t \in Tasks : Pool_Execute(t) /\ L("Pool_Execute", NOBODY, t)
-  \/ Pool_Stop /\ L("Pool_Stop", NOBODY, 0)
-  \/ Pool_StopJoined /\ L("Pool_StopJoined", NOBODY, 0)
-  \/ Pool_DropBegin /\ L("Pool_DropBegin", NOBODY, IF recAttached THEN 1 ELSE 0)
-  \/ Pool_DropHandles /\ L("Pool_DropHandles", NOBODY, Cardinality(Started))
-  \/ Pool_DropEnd /\ L("Pool_DropEnd", NOBODY, 0)
-  \/ \E w \in Workers :
-       \/ Worker_Lock(w) /\ L("Worker_Lock", w, IF poisoned THEN 1 ELSE 0)
-       \/ Worker_RecvMsg(w) /\ L("Worker_Recv", w, IF Head(q) = SHUTDOWN THEN 1 ELSE 0)
-       \/ Worker_RecvDisc(w) /\ L("Worker_Recv", w, 2)
-       \/ Worker_Run(w) /\ L("Worker_Run", w, wtask[w])
-       \/ Worker_Finish(w) /\ L("Worker_Finish", w, wtask[w])
-       \/ Worker_Panic(w) /\ L("Worker_Panic", w, wtask[w])
-       \/ Worker_Die(w) /\ L("Worker_Die", w, 0)
-  \/ Rec_Wake /\ L("Rec_Wake", Head(recq), 0)
-  \/ Rec_Recv /\ L("Rec_Recv", rw, 0)
-  \/ Rec_Join /\ L("Rec_Join", rw, IF handles[rw] THEN 1 ELSE 0)
-  \/ Rec_Respawn /\ L("Rec_Respawn", rw, 0)
+  \/ Pool_Start(N) /\ L("Pool_Start", cur + 1, NOBODY, N)
+  \/ \E t \in Tasks : Pool_Execute(t) /\ L("Pool_Execute", cur, NOBODY, t)
+  \/ Pool_Stop /\ L("Pool_Stop", cur, NOBODY, 0)
+  \/ Pool_StopJoined /\ L("Pool_StopJoined", cur, NOBODY, 0)
+  \/ Pool_DropBegin /\ L("Pool_DropBegin", cur, NOBODY, IF recAttached THEN 1 ELSE 0)
+  \/ Pool_DropHandles /\ L("Pool_DropHandles", cur, NOBODY, IF cur = 0 THEN 0 ELSE Cardinality(Started(cur)))
+  \/ Pool_DropEnd /\ L("Pool_DropEnd", cur, NOBODY, 0)
+  \/ \E g \in Gens :
+       \/ \E w \in Workers :
+            \/ Worker_Lock(g, w) /\ L("Worker_Lock", g, w, IF poisoned[g] THEN 1 ELSE 0)
+            \/ Worker_RecvMsg(g, w) /\ L("Worker_Recv", g, w, IF Head(q[g]) = SHUTDOWN THEN 1 ELSE 0)
+            \/ Worker_RecvDisc(g, w) /\ L("Worker_Recv", g, w, 2)
+            \/ Worker_Run(g, w) /\ L("Worker_Run", g, w, wtask[g][w])
+            \/ Worker_Finish(g, w) /\ L("Worker_Finish", g, w, wtask[g][w])
+            \/ Worker_Panic(g, w) /\ L("Worker_Panic", g, w, wtask[g][w])
+            \/ Worker_Die(g, w) /\ L("Worker_Die", g, w, 0)
+       \/ Rec_Wake(g) /\ L("Rec_Wake", g, Head(recq[g]), 0)
+       \/ Rec_Recv(g) /\ L("Rec_Recv", g, rw[g], 0)
+       \/ Rec_Join(g) /\ L("Rec_Join", g, rw[g], IF handles[Tbl(g)][rw[g]] # 0 THEN 1 ELSE 0)
+       \/ Rec_Respawn(g) /\ L("Rec_Respawn", g, rw[g], 0)
 
 gvars == <<vars, hist>>
 GSpec == GInit /\ [][GNext]_gvars
@@ -58,13 +61,24 @@ EdgeOut == PrintT(ToJson([s |-> Proj, l |-> hist'[1], t |-> Proj']))
 
 \* behaviour dump under -simulate (KeepHist = TRUE)
 Final == cpc = "done" /\ ~ENABLED GNext
-SimOut == Final => PrintT(ToJson([n |-> N, tasks |-> MaxTasks, pan |-> [t \in Tasks |-> t \in pan],
+SimOut == Final => PrintT(ToJson([n |-> N, tasks |-> MaxTasks, gens |-> G, pan |-> [t \in Tasks |-> t \in pan],
                                   complete |-> TRUE, steps |-> hist]))
 
-\* reachability witnesses (must be violated; see MC_ThreadPool)
-NeverRespawnedRuns  == \A w \in Workers : ~(inc[w] >= 1 /\ wpc[w] = "run")
-NeverSecondRespawn  == \A w \in Workers : inc[w] < 2
-NeverDropBusyNoStop == ~(cpc = "dropping" /\ recAttached /\ Running # {} /\ q # <<>>)
-NeverStopBusy       == ~(cpc = "stopped" /\ Gone # {} /\ Running # {} /\ rxLock # NOBODY)
-NeverRespawnAfterDrop == ~(rpc = "respawn" /\ cpc = "done" /\ ~handles[rw])
+\* reachability witnesses (each must be violated; the counterexample is a schedule for the gated replay)
+\*   N tasks running at once: NeverAllRunning (ThreadPool)
+\*   a respawned worker runs a task / a worker id is respawned a second time
+NeverRespawnedRuns  == \A g \in Gens, w \in Workers : ~(inc[g][w] >= 1 /\ wpc[g][w] = "run")
+NeverSecondRespawn  == \A g \in Gens, w \in Workers : inc[g][w] < 2
+\*   drop is entered without stop while a task runs and another is still queued
+NeverDropBusyNoStop == ~(cpc = "dropping" /\ recAttached /\ Running(cur) # {} /\ q[cur] # <<>>)
+\*   stop: one worker has consumed the Shutdown while another still runs a task and a third sits in recv
+NeverStopBusy       == ~(cpc = "stopped" /\ Gone(cur) # {} /\ Running(cur) # {} /\ rxLock[cur] # NOBODY)
+\*   the recovery thread finds the handle already taken by Drop
+NeverRespawnAfterDrop == \A g \in Gens : ~(rpc[g] = "respawn" /\ cpc = "done" /\ handles[g][rw[g]] = 0)
+\*   restart: a task of the first generation is still running after start; stop; start and then panics, and
+\*   its (old) recovery thread is about to join it while the second generation has begun to work
+NeverOldPanicAfterRestart ==
+  ~(cur = 2 /\ rpc[1] = "join" /\ handles[1][rw[1]] = 1 /\ \E w \in Workers : wpc[2][w] = "recv")
+\*   restart without stop: two generations run tasks at the same time
+NeverTwoGenerationsRun == ~(cur = 2 /\ Running(1) # {} /\ Running(2) # {})
 =============================================================================
